@@ -622,6 +622,9 @@ _run_main = run
 def run(rep: core.Report):
     _run_main(rep)
     _r09h(rep)
+    from rules import shared_bcast
+
+    shared_bcast.run(rep, "R09i", [r for r in ["phonopy/structure/grid_points.py", "phonopy/phonon/moment.py", "phonopy/phonon/dos.py", "phonopy/phonon/thermal_properties.py"] if (core.REPO / r).is_file()])
 
 
 def selftest():
